@@ -8,6 +8,10 @@ Targets == { T(FALSE, <<"..", "sent">>), T(TRUE, <<"w", "sent">>), T(FALSE, <<".
 Names   == { <<"a">>, <<"b">>, <<"..", "a">>, <<"a", "b">>, <<"..">> }
 QEntries == { F(n) : n \in Names } \cup { L(n, t) : n \in { <<"a">>, <<"b">>, <<"..", "a">> }, t \in Targets }
 QDirNames == { <<"a">>, <<"b">> }
+(* three entries of one name, among them entries whose block is missing from the archive *)
+M(n) == [k |-> "missing", n |-> n, to |-> T(FALSE, <<>>)]
+SEntries == { F(<<"a">>), F(<<"b">>), M(<<"b">>), L(<<"a">>, T(FALSE, <<"..", "sdir">>)), L(<<"a">>, T(FALSE, <<"..">>)) }
+SDirNames == { <<"a">> }
 (* directory entries whose names reach one and two levels below what may be a symlink *)
 DEntries == { F(<<"a">>), F(<<"b">>), L(<<"a">>, T(FALSE, <<"..", "sdir">>)), L(<<"a">>, T(FALSE, <<"..">>)), L(<<"a">>, T(TRUE, <<"w", "new">>)) }
 DDirNames == { <<"a">>, <<"a", "x">>, <<"a", "x", "y">> }
@@ -19,6 +23,7 @@ PreLink == (<<"a">> :> [t |-> "link", to |-> T(FALSE, <<"..", "sent">>)])
 PreDirLink == (<<"a">> :> [t |-> "link", to |-> T(FALSE, <<"..", "sdir">>)])
 PreDir == (<<"a">> :> [t |-> "dir"])
 QPre == { NoPre, PreLink, PreDirLink, PreDir }
+SPre == { NoPre }
 (* file roots: the fixed name "unknown" meets links, files and directories of that name *)
 UEntries == { F(<<"unknown">>), F(<<"a">>) } \cup { L(<<"unknown">>, t) : t \in Targets }
 UDirNames == { <<"unknown">>, <<"a">> }
